@@ -510,3 +510,145 @@ def replay_make_dll_dtype(name):
     return bad, {"call": "kerneldll.make_dll(<sphere source>, info, dtype=%s) with a recording compiler" % name,
                  "real": {"library": os.path.basename(path), "FLOAT_SIZE": size},
                  "spec": {"bits_in_name": want_bits, "FLOAT_SIZE": want_bits // 8}}
+
+
+
+# --------------------------------------------------------------------------
+# kerneldll.DllModel._load_dll: C argument types follow the precision
+# --------------------------------------------------------------------------
+
+def load_dll_types_contract(reg, prop):
+    """The scalar cutoff argument of the three kernels has the C type of the requested precision (float /
+    double / long double), the other arguments are int32 x3, void* x4 and a trailing int32."""
+    import ctypes as ct
+    import sasmodels.kerneldll as live
+    fn = "sasmodels.kerneldll.DllModel._load_dll"
+    want_float = {"F32": ct.c_float, "F64": ct.c_double, "F128": ct.c_longdouble}
+    for name, dt in dtypes().items():
+        if name == "F16":
+            continue
+
+        def body(it, name=name, dt=dt):
+            kernels = {}
+
+            class FakeKernel(object):
+                argtypes = None
+
+            def cdll(it_, a, k):
+                def getitem(it__, a_, k_):
+                    kern = it__.new_obj(None, {"argtypes": None}, "kernel %s" % (a_[0],))
+                    kernels[a_[0]] = kern
+                    return kern
+                return it_.new_obj(None, {"__getitem__": Summary(getitem, "CDLL[name]", contract=False)}, "cdll")
+            it.models[ct.CDLL] = cdll
+            info = it.new_obj(None, {"name": "m"}, "info")
+            selfo = it.new_obj(live.DllModel, {"dllpath": "/cache/x.so", "dtype": dt, "_dll": None, "info": info,
+                                                "_kernels": None}, "DllModel")
+            f = it.get_func("sasmodels.kerneldll", "DllModel._load_dll")
+            it.call(f, [selfo])
+            want = [ct.c_int32] * 3 + [ct.c_void_p] * 4 + [want_float[name], ct.c_int32]
+            ok = set(kernels) == {"m_Iq", "m_Iqxy", "m_Imagnetic"}
+            for kern in kernels.values():
+                at = it.getattr(kern, "argtypes")
+                items = list(at.items) if hasattr(at, "items") and not isinstance(at, (list, tuple)) else list(at or [])
+                ok = ok and items == want
+            reg.prove("%s.DllModel._load_dll.argument_types_follow_the_precision.%s" % (prop, name), it.pc,
+                      z3.BoolVal(bool(ok)), function=fn, replay=lambda mdl=None, name=name: replay_load_dll_types(name))
+        it = Interp(reg)
+        it.poison_one_arm = False
+        try:
+            it.run_paths(body)
+        except OutsideSubset as exc:
+            reg.undecided("%s.DllModel._load_dll.engine.%s" % (prop, name), "outside subset: %s" % exc, function=fn)
+
+
+def replay_load_dll_types(name):
+    """Real single/double/quad kernels with dispersity and a large cutoff against the double kernel."""
+    import numpy as np
+    from sasmodels import core
+    from sasmodels.direct_model import call_kernel
+    spelling = {"F32": "single!", "F64": "double!", "F128": "quad!"}[name]
+    info = core.load_model_info("sphere")
+    q = np.array([0.01, 0.05, 0.1])
+    pars = dict(radius=50.0, radius_pd=0.3, radius_pd_n=30, background=0.0)
+    ref = np.asarray(call_kernel(core.build_model(info, dtype="double!").make_kernel([q]), pars, cutoff=1e-2), "d")
+    got = np.asarray(call_kernel(core.build_model(info, dtype=spelling).make_kernel([q]), pars, cutoff=1e-2), "d")
+    tol = 1e-4 if name == "F32" else 1e-9
+    bad = not np.allclose(got, ref, rtol=tol)
+    return bool(bad), {"call": "sphere, radius_pd=0.3, cutoff=1e-2: %s kernel vs double kernel" % spelling,
+                       "real": got.tolist(), "spec": ref.tolist()}
+
+
+# --------------------------------------------------------------------------
+# kerneldll.load_dll: the model object carries the precision the library was built for
+# --------------------------------------------------------------------------
+
+def load_dll_dtype_contract(reg, prop):
+    """load_dll(source, info, dtype) wraps the library in a DllModel whose dtype (the type of the numpy buffers
+    handed to the kernel) is the precision make_dll compiled: the requested one, or double when single precision
+    libraries are switched off (ALLOW_SINGLE_PRECISION_DLLS = False)."""
+    fn = "sasmodels.kerneldll.load_dll"
+    D = dtypes()
+    for name in ("F32", "F64", "F128"):
+        for allow in (True, False):
+            def body(it, name=name, allow=allow):
+                seen = {}
+
+                def make_dll(it_, a, k):
+                    seen["make_dtype"] = k.get("dtype", a[2] if len(a) > 2 else None)
+                    return Sym(z3.String("library_path"))
+
+                def dll_model(it_, a, k):
+                    seen["model_dtype"] = k.get("dtype", a[2] if len(a) > 2 else None)
+                    return "model"
+                it.summaries["sasmodels.kerneldll.make_dll"] = Summary(make_dll, "make_dll (contract above)", contract=False)
+                stub = Summary(dll_model, "DllModel()", contract=False)
+                it.summaries["sasmodels.kerneldll.DllModel"] = stub
+                it.global_overrides = {("sasmodels.kerneldll", "DllModel"): stub,
+                                       ("sasmodels.kerneldll", "ALLOW_SINGLE_PRECISION_DLLS"): allow}
+                f = it.get_func("sasmodels.kerneldll", "load_dll")
+                it.call(f, [Sym(z3.String("source")), it.new_obj(None, {}, "info")], {"dtype": D[name]})
+                # the precision make_dll compiles for a request (its own contract): double for a single request
+                # when single precision libraries are disallowed
+                eff = lambda d: D["F64"] if (d == D["F32"] and not allow) else d
+                md = seen.get("make_dtype")
+                built = eff(md) if md is not None else None
+                ok = (seen.get("model_dtype") is not None and seen.get("model_dtype") == built
+                      and md in (D[name], eff(D[name])) and built == eff(D[name]))
+                region = "single_precision_dlls_disallowed" if (name == "F32" and not allow) else "%s" % name
+                reg.prove("%s.load_dll.model_dtype_is_the_precision_of_the_library.%s" % (prop, region), it.pc,
+                          z3.BoolVal(bool(ok)), function=fn,
+                          replay=lambda mdl=None, name=name, allow=allow: replay_load_dll_dtype(name, allow))
+            it = Interp(reg)
+            it.poison_one_arm = False
+            it.run_paths(body)
+
+
+def replay_load_dll_dtype(name, allow):
+    """Real load_dll with a recording compiler: dtype of the DllModel against FLOAT_SIZE of the compiled text."""
+    import os
+    import re
+    import shutil
+    import tempfile
+    from sasmodels import kerneldll, core, generate
+    info = core.load_model_info("sphere")
+    src = generate.make_source(info)["dll"]
+    seen = {}
+    d = tempfile.mkdtemp(prefix="verif_load_dll_")
+    old = (kerneldll.SAS_DLL_PATH, kerneldll.compile_model, kerneldll.ALLOW_SINGLE_PRECISION_DLLS)
+
+    def fake_compile(source, output):
+        seen["text"] = open(source).read()
+        open(output, "w").write("stub")
+    try:
+        kerneldll.SAS_DLL_PATH, kerneldll.compile_model, kerneldll.ALLOW_SINGLE_PRECISION_DLLS = d, fake_compile, allow
+        model = kerneldll.load_dll(src, info, dtypes()[name])
+    finally:
+        kerneldll.SAS_DLL_PATH, kerneldll.compile_model, kerneldll.ALLOW_SINGLE_PRECISION_DLLS = old
+        shutil.rmtree(d, ignore_errors=True)
+    m = re.match(r"#define FLOAT_SIZE (\d+)", seen.get("text", ""))
+    size = int(m.group(1)) if m else None
+    bad = size is None or model.dtype.itemsize != size
+    return bool(bad), {"call": "kerneldll.load_dll(<sphere>, dtype=%s) with ALLOW_SINGLE_PRECISION_DLLS=%s" % (name, allow),
+                       "real": {"DllModel.dtype.itemsize": int(model.dtype.itemsize), "FLOAT_SIZE of the compiled source": size},
+                       "spec": "equal"}
